@@ -269,7 +269,17 @@ theorem createLoop_exists (t : TinyLFU) (wf : t.fc.WF) (size : Nat) (w : Int) (i
           unfold createLoop
           rw [if_neg hfit]
           simp only [hfind, hmax, Bool.not_true, Bool.false_eq_true, if_false, hhot, if_true]
-        · have hn' := Adm.delete_noDup hn k.id
+        · by_cases hov : (a.delete k.id).1.spaceOverflow = true
+          · -- the re-check after the eviction overflows: the run ends there (the worker's panic), nothing more is consumed
+            refine ⟨{ o' with pops := some k.id :: o'.pops },
+              { status := .pending, adm := (a.delete k.id).1, oracle := o',
+                evicted := (match (a.delete k.id).2 with | some e => e :: ev | none => ev).reverse,
+                popped := (k :: pp).reverse, overflow := true }, ?_, rfl⟩
+            unfold createLoop
+            rw [if_neg hfit]
+            simp only [hfind, hmax, Bool.not_true, Bool.false_eq_true, if_false, hhot, hov, if_true]
+            rfl
+          have hn' := Adm.delete_noDup hn k.id
           have hok' := SampleOK.delete_filter hok k.id
           have hnd' := hnd.filter (fun x => x.id != k.id)
           obtain ⟨s'', hs''⟩ := fillSample_exists t wf hn'
@@ -287,7 +297,7 @@ theorem createLoop_exists (t : TinyLFU) (wf : t.fc.WF) (size : Nat) (w : Int) (i
           refine ⟨{ o2 with pops := some k.id :: o2.pops }, r, ?_, hro⟩
           unfold createLoop
           rw [if_neg hfit]
-          simp only [hfind, hmax, Bool.not_true, Bool.false_eq_true, if_false, hhot]
+          simp only [hfind, hmax, Bool.not_true, Bool.false_eq_true, if_false, hhot, hov]
           have he : ({ { o2 with pops := some k.id :: o2.pops } with pops := o2.pops } : Oracle) = o2 := rfl
           rw [he, ho2]
           exact hr
@@ -303,10 +313,14 @@ theorem maybeAdd_exists (t : TinyLFU) (wf : t.fc.WF) (size : Nat) (a : Adm) (hn 
   · refine ⟨o', { status := .rejected .tooHeavy, adm := a, oracle := o' }, ?_, rfl⟩
     unfold maybeAdd
     rw [if_pos hmax]
-  · by_cases hfit : a.max - a.used ≥ w
+  · by_cases hov : a.spaceOverflow = true
+    · refine ⟨o', { status := .pending, adm := a, oracle := o', overflow := true }, ?_, rfl⟩
+      unfold maybeAdd
+      rw [if_neg hmax, if_pos hov]
+    by_cases hfit : a.max - a.used ≥ w
     · refine ⟨o', { status := .accepted, adm := a.add id key hash w, oracle := o' }, ?_, rfl⟩
       unfold maybeAdd
-      rw [if_neg hmax, if_pos hfit]
+      rw [if_neg hmax, if_neg hov, if_pos hfit]
     · obtain ⟨incEst, hest⟩ := estimateO_exists t wf hash
       obtain ⟨sample, hsample⟩ := fillSample_exists t wf hn (fillNeed size a.kw []) [] (Nat.min_le_right _ _)
       obtain ⟨o0, ho0⟩ := hsample o'
@@ -317,9 +331,10 @@ theorem maybeAdd_exists (t : TinyLFU) (wf : t.fc.WF) (size : Nat) (a : Adm) (hn 
       obtain ⟨o1, ho1⟩ := hsample o2
       refine ⟨{ o1 with dk := t.dk.contains hash :: o1.dk },
         { status := r.status, adm := if r.status = .accepted then r.adm.add id key hash w else r.adm,
-          oracle := r.oracle, evicted := r.evicted, popped := r.popped, incEst := some incEst }, ?_, hro⟩
+          oracle := r.oracle, evicted := r.evicted, popped := r.popped, incEst := some incEst,
+          overflow := r.overflow }, ?_, hro⟩
       unfold maybeAdd
-      rw [if_neg hmax, if_neg hfit]
+      rw [if_neg hmax, if_neg hov, if_neg hfit]
       simp only [hest o1, ho1, hr]
 
 /-- **The worker's `put` / `put_with_ttl` can always be served** (it may end in the time-overflow panic D8, which is
@@ -339,6 +354,8 @@ theorem workerPut_step_exists (s : State) (wf : s.lfu.fc.WF) (hn : AMap.NoDup s.
     rw [if_neg hc]
     simp only [hr]
     subst hro
+    split
+    · exact ⟨_, rfl⟩
     split
     · cases ttl with
       | none => exact ⟨_, rfl⟩
@@ -399,7 +416,8 @@ theorem maybeAdd_dup_stuck (t : TinyLFU) (o : Oracle) (r : AdmResult) : maybeAdd
   unfold maybeAdd at h
   have h1 : ¬ ((6 : Int) > pgDupAdm.max) := by decide
   have h2 : ¬ (pgDupAdm.max - pgDupAdm.used ≥ (6 : Int)) := by decide
-  rw [if_neg h1, if_neg h2] at h
+  have h0 : ¬ (pgDupAdm.spaceOverflow = true) := by decide
+  rw [if_neg h1, if_neg h0, if_neg h2] at h
   split at h
   · cases h
   · split at h
@@ -523,6 +541,10 @@ theorem workerPut_lfu {s : State} {id hash : Nat} {w : Int} {k v : Nat} {ttl : O
         rw [B.foldl_applyEvict_lfu]
       simp only [] at h
       generalize r.evicted.foldl applyEvict { s with adm := r.adm } = s1 at h h1
+      split at h
+      · simp only [Except.ok.injEq, Prod.mk.injEq] at h
+        obtain ⟨rfl, -⟩ := h
+        exact h1
       split at h
       · split at h
         · simp only [Except.ok.injEq, Prod.mk.injEq] at h
@@ -1441,13 +1463,17 @@ theorem C13_layerB_worker_enabled_of_inv {b : BState} (hb : BInv b) (hs : WSampl
     | false => exact Or.inr (wuCase hf)
     | true =>
       left
+      by_cases hov : b.g.adm.spaceOverflow = true
+      · refine ⟨{}, ?_⟩
+        simp only [stepB, workerAct, hw, hf, Bool.not_true, Bool.false_eq_true, if_false, hov, if_true]
+        exact ⟨_, rfl⟩
       by_cases hfit : b.g.adm.max - b.g.adm.used ≥ c.w
       · refine ⟨{}, ?_⟩
-        simp only [stepB, workerAct, hw, hf, Bool.not_true, Bool.false_eq_true, if_false, hfit, if_true]
+        simp only [stepB, workerAct, hw, hf, Bool.not_true, Bool.false_eq_true, if_false, hov, hfit, if_true]
         exact ⟨_, rfl⟩
       · obtain ⟨e, he⟩ := estimateO_exists b.g.lfu wf c.hash
         refine ⟨{ ({} : Oracle) with dk := b.g.lfu.dk.contains c.hash :: ({} : Oracle).dk }, ?_⟩
-        simp only [stepB, workerAct, hw, hf, Bool.not_true, Bool.false_eq_true, if_false, hfit, he {}]
+        simp only [stepB, workerAct, hw, hf, Bool.not_true, Bool.false_eq_true, if_false, hov, hfit, he {}]
         exact ⟨_, rfl⟩
   | sampleInit c space incEst =>
     left
@@ -1497,7 +1523,7 @@ theorem C13_layerB_worker_enabled_of_inv {b : BState} (hb : BInv b) (hs : WSampl
       left
       refine ⟨{}, ?_⟩
       simp only [stepB, workerAct, hw, hf, Bool.not_true, Bool.false_eq_true, if_false]
-      exact ⟨_, rfl⟩
+      split <;> exact ⟨_, rfl⟩
   | emptySpace c =>
     cases hf : wuFree b .worker with
     | false => exact Or.inr (wuCase hf)
@@ -1505,7 +1531,9 @@ theorem C13_layerB_worker_enabled_of_inv {b : BState} (hb : BInv b) (hs : WSampl
       left
       refine ⟨{}, ?_⟩
       simp only [stepB, workerAct, hw, hf, Bool.not_true, Bool.false_eq_true, if_false]
-      split <;> exact ⟨_, rfl⟩
+      split
+      · exact ⟨_, rfl⟩
+      · split <;> exact ⟨_, rfl⟩
   | insert c =>
     left
     refine ⟨{}, ?_⟩
